@@ -13,22 +13,81 @@ def scalar_value(m, p):
     return cat_limbs(list(m.load(p)[1]))
 
 
-def install_newpublickey_stub(m):
-    """secec.NewPublicKey replaced by its C06/C10 contract: a key is returned exactly when the byte string
-    is a SEC 1 encoding of a non-identity curve point -- an uninterpreted predicate of the bytes per length."""
-    def c(m, a):
+ROOT = MOD + '.'
+PTM = '(*' + MOD + '.Point).'
+PKM = '(*' + MOD + '/secec.PublicKey).'
+PUB_T = MOD + '/secec.PublicKey'
+
+
+def install_point_decode_contract(m):
+    """secp256k1.NewPointFromBytes replaced by its C06 contract: a point is returned exactly when the byte string is a SEC 1 encoding of a
+    curve point -- for the non-identity formats an uninterpreted predicate of the bytes per length -- and the Point methods the key
+    constructors use are stated on that abstract point (IsIdentity; UncompressedBytes / CompressedBytes = the unique encodings, C06
+    round trip).  Everything above it (NewPublicKey, newPublicKeyFromPoint or whatever the current tree calls) runs from its real SSA."""
+    m.abstract_types[MOD + '.Point'] = lambda: X.Abs('pt', 'invalid')
+    m.npk_calls = []
+
+    def newpt(v):
+        return X.Ptr(m.new_obj(None, tree=X.Abs('pt', v), label='Point'), ())
+
+    def get(p):
+        v = m.load(p).v
+        if v == 'invalid':
+            raise X.GoPanic('secp256k1: use of uninitialized Point')
+        return v
+
+    def c_frombytes(m, a):
         el = m.slice_elems(a[0])
         n = len(el)
         m.npk_calls.append(el)
+        if n == 1:
+            if m.ctx.branch(tm.eq(el[0], 0, 8)):
+                return (newpt({'id': True}), None)
+            return (X.NILPTR, make_error(m, 'invalid point'))
         if n not in (33, 65):
-            return (X.NILPTR, make_error(m, 'invalid public key'))
+            return (X.NILPTR, make_error(m, 'invalid point'))
         ok = tm.uf('sec1_valid_nonidentity_%d' % n, [tm.lift(cat_bytes(el), 8 * n)], 0)
         if m.ctx.branch(ok):
-            o = m.new_obj(None, tree=[('stub-public-key', m.new_byte_slice(list(el), 'pointBytes'))], label='PublicKey(stub)')
-            return (X.Ptr(o, ()), None)
-        return (X.NILPTR, make_error(m, 'invalid public key'))
-    m.npk_calls = []
-    m.contracts[SECEC + 'NewPublicKey'] = c
+            # the uninterpreted validity predicate implies the SEC 1 format octet (C06 decode/*: accepted-implies-SEC1)
+            m.ctx.assume(tm.eq(el[0], 4, 8) if n == 65 else tm.bor(tm.eq(el[0], 2, 8), tm.eq(el[0], 3, 8)))
+            return (newpt({'id': False, 'enc': tuple(el)}), None)
+        return (X.NILPTR, make_error(m, 'invalid point'))
+    C = m.contracts
+    C[ROOT + 'NewPointFromBytes'] = c_frombytes
+    C[ROOT + 'NewPointFrom'] = lambda m, a: newpt(dict(get(a[0])))
+    C[PTM + 'IsIdentity'] = lambda m, a: 1 if get(a[0])['id'] else 0
+
+    def xy(v):
+        enc = list(v['enc'])
+        x = enc[1:33]
+        if len(enc) == 65:
+            return x, enc[33:65]
+        y = tm.uf('sec1_y_of_compressed', [tm.lift(cat_bytes(enc), 264)], 256)
+        return x, [tm.extract(y, 255 - 8 * i, 248 - 8 * i) for i in range(32)]
+
+    def c_unc(m, a):
+        v = get(a[0])
+        if v['id']:
+            return m.new_byte_slice([0], 'UncompressedBytes')
+        x, y = xy(v)
+        return m.new_byte_slice([4] + x + y, 'UncompressedBytes')
+
+    def c_cmp(m, a):
+        v = get(a[0])
+        if v['id']:
+            return m.new_byte_slice([0], 'CompressedBytes')
+        x, y = xy(v)
+        return m.new_byte_slice([tm.bv('or', tm.bv('and', y[31], 1, 8), 2, 8)] + x, 'CompressedBytes')
+    C[PTM + 'UncompressedBytes'] = c_unc
+    C[PTM + 'CompressedBytes'] = c_cmp
+
+
+def pub_field(m, key, name):
+    t = m.prog.under(m.prog.tid_by_str[PUB_T])
+    for i, f in enumerate(t['fields']):
+        if f['name'] == name:
+            return m.load(key)[i]
+    raise X.Unsupported('secec.PublicKey has no field %s in the current tree' % name)
 
 
 P = 2 ** 256 - 2 ** 32 - 977
@@ -139,7 +198,8 @@ def main():
     gl = load_globals(prog)
     only = os.environ.get('VERIF_ONLY', '')
     chk.summaries.update(models.VALUE_MODEL_SUMMARY)
-    chk.summaries['secec.NewPublicKey (inside ParseASN1PublicKey)'] = 'accepts iff SEC 1 encoding of a non-identity point (uninterpreted predicate per length); discharged by C06 + C10'
+    chk.summaries['secp256k1.NewPointFromBytes (inside ParseASN1PublicKey)'] = ('accepts iff SEC 1 encoding of a curve point (uninterpreted predicate per length, which implies the format octet 04 / 02,03); '
+                                                                              'IsIdentity / UncompressedBytes / CompressedBytes of the decoded point = its unique encodings: discharged by C06; the key constructors above it run from their real SSA')
     chk.stubs += ['fmt.Errorf/errors.New: fresh non-nil error object per call']
     tasks = []
 
@@ -229,20 +289,21 @@ def main():
         chk.bounds.append('ParseCompactSignature / ParseCompactRecoverableSignature: every input length 0..70, all byte contents')
 
     # ---------------------------------------------------------------- SubjectPublicKeyInfo
-    def t_spki(name, L, ptlen, symbolic_header_positions):
+    def t_spki(name, L, ptlen, symbolic_header_positions, reencode=False):
         hdr = S.spki_header(ptlen)
 
         def task(sub):
             def h(ctx):
                 m = mk(ctx)
-                install_newpublickey_stub(m)
+                install_point_decode_contract(m)
                 B = []
                 for i in range(L):
                     if i < len(hdr) and i not in symbolic_header_positions:
                         B.append(hdr[i])
                     else:
                         B.append(tm.var('B_%d' % i, 8))
-                key, err = m.call(SECEC + 'ParseASN1PublicKey', [m.new_byte_slice(B, 'data')])
+                data = m.new_byte_slice(B, 'data')
+                key, err = m.call(SECEC + 'ParseASN1PublicKey', [data])
                 sub.note_machine(m)
                 # specification: exact header (which includes unused-bits = 0) and a valid non-identity SEC 1 point
                 if L == len(hdr) + ptlen:
@@ -256,8 +317,21 @@ def main():
                     ctx.check(spec, 'accepted-implies-grammar')
                     if L == len(hdr) + ptlen:
                         ctx.check(tm.eq(B[len(hdr) - 1], 0, 8), 'accepted-implies-no-unused-bits')
-                        kb = m.slice_elems(key.obj.tree[0][1])
-                        ctx.check(tm.eq(cat_bytes(kb), cat_bytes(pt), 8 * ptlen), 'decoded-point-bytes-are-the-input-bytes')
+                        ctx.check(len(m.npk_calls) >= 1 and len(m.npk_calls[-1]) == ptlen and
+                                  tm.eq(cat_bytes(m.npk_calls[-1]), cat_bytes(pt), 8 * ptlen), 'decoded-point-bytes-are-the-input-bytes')
+                        # the key object is independent of the caller's buffer: the caller overwrites all of it, then the key is re-encoded
+                        for i in range(L):
+                            m.store(X.Ptr(data.obj, data.path + (data.off + i,)), tm.var('reuse_%d' % i, 8))
+                        kb = m.slice_elems(pub_field(m, key, 'pointBytes'))
+                        if ptlen == 65:
+                            ctx.check(len(kb) == 65 and tm.eq(cat_bytes(kb), cat_bytes(pt), 520), 'cached-encoding=input-point-bytes-after-the-caller-reuses-its-buffer')
+                            enc = m.slice_elems(m.call(PKM + 'Bytes', [key]))
+                            ctx.check(len(enc) == 65 and tm.eq(cat_bytes(enc), cat_bytes(pt), 520), 'Bytes()=input-point-bytes-after-the-caller-reuses-its-buffer')
+                            if reencode:
+                                der = m.slice_elems(m.call(PKM + 'ASN1Bytes', [key]))
+                                ctx.check(len(der) == L and tm.eq(cat_bytes(der), cat_bytes(B), 8 * L), 're-encoding-a-parsed-uncompressed-key-reproduces-the-input')
+                        else:
+                            ctx.check(len(kb) == 65 and tm.eq(cat_bytes(kb[:33]), cat_bytes([4] + pt[1:]), 264), 'cached-encoding-has-the-input-x-after-the-caller-reuses-its-buffer')
                     return 'accept'
                 ctx.check(tm.bnot(spec), 'rejected-implies-not-grammar')
                 ctx.check(key.is_nil(), 'no-object-on-error')
@@ -271,7 +345,7 @@ def main():
             hl = len(S.spki_header(ptlen))
             full = hl + ptlen
             # completeness + unused-bits: concrete header except the unused-bits byte, point bytes symbolic
-            tasks.append(('spki/%d/concrete-header' % ptlen, t_spki('spki@pt%d/header-concrete' % ptlen, full, ptlen, {hl - 1})))
+            tasks.append(('spki/%d/concrete-header' % ptlen, t_spki('spki@pt%d/header-concrete' % ptlen, full, ptlen, {hl - 1}, reencode=True)))
             # soundness: any single header byte arbitrary (plus the unused-bits byte and all point bytes)
             for i in range(hl - 1):
                 tasks.append(('spki/%d/mut%d' % (ptlen, i), t_spki('spki@pt%d/header-byte%d-symbolic' % (ptlen, i), full, ptlen, {i, hl - 1})))
